@@ -6,6 +6,7 @@
 //	"!err-u…"    UnmarshalGQL returns an error
 //	"!panic-u…"  UnmarshalGQL panics
 //	"!panic-m…"  MarshalGQL panics (the value unmarshals fine)
+//	"!badjson-m…" MarshalGQL writes invalid JSON (the value unmarshals fine)
 package scalars
 
 import (
@@ -26,6 +27,11 @@ func (t Tok) MarshalGQL(w io.Writer) {
 	Marshals.Add(1)
 	if strings.HasPrefix(string(t), "!panic-m") {
 		panic("Tok.MarshalGQL panicked: " + string(t))
+	}
+	if strings.HasPrefix(string(t), "!badjson-m") {
+		// a marshaler of the user that writes something encoding/json refuses
+		io.WriteString(w, "{oops")
+		return
 	}
 	io.WriteString(w, strconv.Quote(string(t)))
 }
